@@ -94,6 +94,12 @@ def generate(rng, idx, tier, variant):
     # how the object comes into being: plain constructor or from_dataframe; directly on (AliasMixin, Base) or as a subclass
     # of another alias-enabled class (with other aliases) that may already have been instantiated in this process
     spec['route'] = rng.choice(['init', 'init', 'from_dataframe']) if sp['type'] != 'list_mixed' else 'init'
+    if rng.random() < 0.2:
+        spec['tracer'] = rng.choice(['alias-first', 'tracer-first'])  # both twins also carry the tracer mixin
+    if rng.random() < 0.2:
+        # an alias of an underscore-prefixed (internal) variable that is added after construction and is not exported by default
+        spec['internal'] = True
+        spec['aliases'].append(['HID', '_hid'])
     if rng.random() < 0.3:
         pal, _ = gen_aliases(rng, names)
         spec['parent'] = {'aliases': [[k_, v_] for k_, v_ in pal.items() if k_ != v_], 'instantiate_first': rng.random() < 0.7}
@@ -137,6 +143,10 @@ def generate(rng, idx, tier, variant):
             if opts['min_iter'] > opts['max_iter']:
                 opts['min_iter'] = 0
             op['opts'] = opts
+            if spec.get('tracer'):
+                k_ = rng.randint(1, min(3, len(names)))
+                picks = rng.sample(names, k_)
+                op['trace'] = [[nm2, rng.choice(handles[nm2])] for nm2 in picks] if rng.random() < 0.8 else True
         elif kind == 'to_dataframe':
             op['use_aliases'] = rng.random() < 0.8
         ops.append(op)
@@ -151,7 +161,17 @@ def build_classes(fsic, spec):
         base = fsic.build_model(fsic.parse_model(model['script']))
     else:
         base = probes.make_scripted(fsic, model)
+    if spec.get('tracer'):
+        from fsic.extensions import TracerMixin
+
+        base = type('TracedBase', (TracerMixin, base), {})
     par = spec.get('parent')
+    if spec.get('tracer') == 'tracer-first' and not par:
+        from fsic.extensions import TracerMixin
+
+        inner = base.__mro__[2] if base.__name__ == 'TracedBase' else base
+        mixed = type('Aliased', (TracerMixin, AliasMixin, inner), {'ALIASES': dict(map(tuple, spec['aliases'])), 'PREFERRED_NAMES': list(spec['preferred'])})
+        return base, mixed
     if par:
         parent = type('AliasedParent', (AliasMixin, base), {'ALIASES': dict(map(tuple, par['aliases']))})
         if par.get('instantiate_first'):
@@ -167,14 +187,28 @@ def build_classes(fsic, spec):
 
 def _series(obj):
     d = obj.__dict__
-    return {nm: d['_' + nm] for nm in d['index']}
+    return {nm: d.get('_' + nm) for nm in d['index']}  # (None where the index names something that has no storage)
+
+
+def _traces_equal(A, K):
+    ta, tk = A.__dict__.get('_trace'), K.__dict__.get('_trace')
+    if ta is None or tk is None:
+        return (ta is None) == (tk is None), 'presence'
+    for p, (x, y) in enumerate(zip(ta.tolist(), tk.tolist())):
+        if [str(v) for v in x.index] != [str(v) for v in y.index]:
+            return False, f'labels@{p}'
+        if np.asarray(x.values).shape != np.asarray(y.values).shape or not bool(np.array_equal(np.asarray(x.values, dtype=float), np.asarray(y.values, dtype=float), equal_nan=True)):
+            return False, f'values@{p}'
+    return True, None
 
 
 def _same_state(A, K):
     a, k = _series(A), _series(K)
-    if list(a) != list(k):
+    a.pop('trace', None)
+    k.pop('trace', None)
+    if [x for x in A.__dict__['index']] != [x for x in K.__dict__['index']]:
         return False, ['index']
-    bad = [nm for nm in a if not (isinstance(a[nm], np.ndarray) and RC.arrays_equal(a[nm], k[nm]))]
+    bad = [nm for nm in a if not (isinstance(a[nm], np.ndarray) and isinstance(k.get(nm), np.ndarray) and RC.arrays_equal(a[nm], k[nm]))]
     return not bad, bad
 
 
@@ -250,6 +284,14 @@ def execute(schedule, ctx):
     n = len(span)
     ok, bad = _same_state(A, K)
     chk('construction/keywords-through-aliases', ok, {'differs': bad, 'kw': list(kwA)})
+    if spec.get('internal'):
+        for obj in (A, K):
+            obj.add_variable('_hid', 0.5)
+        ctx.probe('alias-of-internal-variable')
+        try:
+            chk('read/internal-variable-through-alias', bool(np.array_equal(A['HID'], K['_hid'])), None)
+        except Exception as e:
+            chk('read/internal-variable-through-alias', False, {'exc': type(e).__name__})
 
     def storage_ok(when):
         keysA = sorted(k for k in A.__dict__ if k.startswith('_') and k not in ('_ctl',))
@@ -344,9 +386,21 @@ def execute(schedule, ctx):
             if model['kind'] != 'parser':
                 probes.get_ctl(A).arm({})
                 probes.get_ctl(K).arm({})
-            ra, rk = both(lambda: A.solve(**S.solver_kwargs(opts)), lambda: K.solve(**S.solver_kwargs(opts)))
+            kwa, kwk = {}, {}
+            if spec.get('tracer') and op.get('trace'):
+                if op['trace'] is True:
+                    kwa['trace'] = kwk['trace'] = True
+                else:
+                    kwa['trace'] = [h for _, h in op['trace']]
+                    kwk['trace'] = [c_ for c_, _ in op['trace']]
+                kwa['reset'] = kwk['reset'] = True  # (so that re-specified traces never meet the known finding of C17)
+                ctx.probe('traced-solve-through-aliases')
+            ra, rk = both(lambda: A.solve(**S.solver_kwargs(opts), **kwa), lambda: K.solve(**S.solver_kwargs(opts), **kwk))
             ra, rk = val(ra), val(rk)
             ctx.probe('solve')
+            if spec.get('tracer'):
+                okt, where = _traces_equal(A, K)
+                chk('solve/trace-through-alias-equals-trace-through-name', okt, {'where': where, 'trace': op.get('trace')})
         elif kind == 'to_dataframe':
             do_dataframe(A, K, spec, op, names, chk, ctx)
             ra = rk = ('ok', None)
@@ -354,6 +408,9 @@ def execute(schedule, ctx):
             try:
                 listing = dir(A)
                 chk('dir/lists-aliases', all(a_ in listing for a_ in A.__dict__['aliases']), None)
+                comp = list(A._ipython_key_completions_())
+                comp2 = list(A._ipython_key_completions_())
+                chk('completions/list-variables-and-aliases', all(v_ in comp for v_ in K.__dict__['index']) and all(a_ in comp for a_ in A.__dict__['aliases']) and comp == comp2, {'first': comp[:8], 'second': comp2[:8]})
             except Exception as e:
                 chk('dir/works', False, {'exc': type(e).__name__})
             ra = rk = ('ok', None)
